@@ -676,6 +676,101 @@ def r10_9_walk_reaches_registered_ancestors(ctx, rid='R10.9'):
     r.done()
 
 
+def r14_16_rename_keeps_keys_distinct(ctx, rid='R14.16'):
+    """An ordered dictionary has one entry per key.  rename_attribute overwrites the text of a key node with the new name; if the
+    mapping already has an attribute of that name, it has two afterwards: has_attribute() says yes, get_attribute() raises."""
+    P = ctx.P
+    r = ctx.rule(rid, 'rename_attribute leaves the keys distinct: the case that the new name is already present is handled (tested, '
+                      'removed or refused) before a key text is overwritten with it', floor=1)
+    f = fn(P, 'yatiml.helpers:Node.rename_attribute')
+    new = f.fi.params[2] if len(f.fi.params) > 2 else 'new_name'
+    stores = [n for n in f.walk() if isinstance(n, ast.Assign) and len(n.targets) == 1 and isinstance(n.targets[0], ast.Attribute)
+              and n.targets[0].attr == 'value' and norm(n.value) == new and f.live(n)]
+    if not stores:
+        raise AnalysisError('anchor missing: the store of the new name into a key node in Node.rename_attribute')
+    handled = [c for c in f.walk() if isinstance(c, ast.Call) and call_name(c) in ('has_attribute', 'remove_attribute', '__attr_index', 'get_attribute')
+               and any(norm(a) == new for a in c.args) and f.live(c)]
+    handled += [c for c in f.walk() if isinstance(c, ast.Compare) and any(norm(x) == new for x in [c.left] + c.comparators)
+                and any('.value' in norm(x) for x in [c.left] + c.comparators) and f.live(c)]
+    for st in stores:
+        ok = any(f.nid(h) is not None and f.cfg.dominates(f.nid(h), f.nid(st)) for h in handled)
+        r.check(ok, 'the new name is looked for before a key is renamed to it', f.key('target-name-unchecked'), f.loc(st),
+                'rename_attribute(a, b) on a mapping that already has b gives it two keys b: has_attribute(b) is true and get_attribute(b) '
+                'raises SeasoningError - not what a rename in an ordered dictionary does')
+    r.done()
+
+
+def r03_16_descent_reaches_registered_descendants(ctx, rid='R03.16'):
+    """C03 quantifies over hierarchies with *unregistered intermediates*.  The descent from the expected class to its registered
+    subclasses follows direct bases only (`expected_type in other_class.__bases__`): a registered class below an unregistered one is
+    never a candidate (known finding F23c, the recognition side of F23)."""
+    P = ctx.P
+    r = ctx.rule(rid, 'the descent from an expected class reaches every registered subclass, also one that derives from it through a '
+                      'class that is not registered', floor=1)
+    f = fn(P, S.REC + '__recognize_user_classes')
+    et = f.fi.params[2]
+    tests = [c for c in f.walk() if isinstance(c, ast.Compare) and len(c.ops) == 1 and isinstance(c.ops[0], ast.In)
+             and norm(c.left) == et and norm(c.comparators[0]).endswith('.__bases__') and f.live(c)]
+    wide = [c for c in f.walk() if isinstance(c, ast.Call) and call_name(c) == 'issubclass' and len(c.args) == 2 and norm(c.args[1]) == et and f.live(c)]
+    wide += [c for c in f.walk() if isinstance(c, ast.Compare) and len(c.ops) == 1 and isinstance(c.ops[0], ast.In) and norm(c.left) == et
+             and ('__mro__' in norm(c.comparators[0]) or 'mro()' in norm(c.comparators[0])) and f.live(c)]
+    if not tests and not wide:
+        raise AnalysisError('anchor missing: the subclass test of the descent in __recognize_user_classes')
+    for t in tests:
+        r.check(bool(wide), 'subclasses are found through the whole ancestry, not only through direct bases', f.key('descent-direct-bases-only'),
+                f.loc(t), 'the descent takes a registered class for a subclass of %s only if %s is among its direct bases: with A, C(B), B(A) '
+                'and only A and C registered, a document that matches C is recognised as A (and then fails on C\'s attributes, or loads as '
+                'an A) although C is the most-derived registered class that matches' % (et, et))
+    if not tests:
+        r.ok('the descent uses the whole ancestry')
+    r.done()
+
+
+def r03_17_tag_selects_against_generic_members(ctx, rid='R03.17'):
+    """"If two or more candidates remain the load fails unless an explicit !ClassName tag names one of them."  Class recognisers
+    reject a node whose tag names another class; the dict recogniser looks at the node kind only, so in `Union[Dict[str, str], C]` a
+    mapping tagged !C stays a candidate for the dict member as well and the tag cannot decide (known finding F26).  (Processing
+    rejects such a node at a Dict position afterwards - R02.19 - so recognition and processing disagree about it.)"""
+    P = ctx.P
+    r = ctx.rule(rid, 'a mapping that carries a tag naming a class is not a candidate for a generic dict member of a Union: the dict '
+                      'recogniser accepts only under a test of the node\'s tag', floor=1)
+    f = fn(P, S.REC + '__recognize_dict')
+    node = f.fi.params[1]
+    acc = S.accept_returns(f)
+    if not acc:
+        raise AnalysisError('anchor missing: accepting return of __recognize_dict')
+    for ret, v in acc:
+        tagged = any('%s.tag' % node in t for t in f.guard_texts(ret))
+        r.check(tagged, '__recognize_dict accepts under a test of %s.tag' % node, f.key('accepts-any-tag'), f.loc(ret),
+                '__recognize_dict accepts every MappingNode whatever its tag: `!C {attr: x}` expected as Union[Dict[str, str], C] is '
+                '"a C or a dict" and fails as ambiguous although the tag names one of the two')
+    r.done()
+
+
+def r13_10_tag_collisions(ctx, rid='R13.10'):
+    """The tag of a registered class is '!' + its __name__.  Two classes of one name (from different modules or scopes), or a user
+    class named like a built-in additional type (Path), silently share a tag: the later registration replaces the earlier one in the
+    registry and its constructor - the outcome of a load then depends on the order of registration, and registering an unrelated class
+    changes how another one loads (known finding F27)."""
+    P = ctx.P
+    r = ctx.rule(rid, 'registering a class under a tag that is already taken is refused (or the tag is made unique): no registration '
+                      'silently replaces another', floor=1)
+    f = fn(P, 'yatiml.loader:add_to_loader')
+    stores = [n for n in f.walk() if isinstance(n, ast.Assign) and len(n.targets) == 1 and isinstance(n.targets[0], ast.Subscript)
+              and norm(n.targets[0].value).endswith('._registered_classes') and f.live(n)]
+    if not stores:
+        raise AnalysisError('anchor missing: the registry store in add_to_loader')
+    for st in stores:
+        key = norm(st.targets[0].slice)
+        tested = [c for c in f.walk() if isinstance(c, ast.Compare) and len(c.ops) == 1 and isinstance(c.ops[0], (ast.In, ast.NotIn))
+                  and norm(c.left) == key and f.live(c) and f.nid(c) is not None and f.cfg.dominates(f.nid(c), f.nid(st))]
+        r.check(bool(tested), 'the tag is looked up before it is (re)used', f.key('tag-collision-unchecked'), f.loc(st),
+                'add_to_loader files every class under \'!\' + __name__ without looking whether the tag is taken: a second class of the same '
+                'name (or a user class called Path) replaces the first one\'s constructor and registry entry - load outcomes depend on the '
+                'registration order, and registering an unrelated class changes them')
+    r.done()
+
+
 def r10_8_each_class_once(ctx, rid='R10.8'):
     """"each called exactly once": the walk up the class hierarchy visits a class once. A recursion over __bases__ without a record
     of what was visited reaches a common ancestor once per path (diamond inheritance)."""
@@ -956,7 +1051,10 @@ def r01_13_extras_partition(ctx, rid='R01.13'):
                     '%s: %s is %s, it should be %s' % (what, desc, 'undetermined' if got is None else ('kept' if got else 'left out'),
                                                        'kept' if w else 'left out'))
 
-    check_part(res, 'the mapping passed on to __init__', lambda k, ink: ink and k != '_yatiml_extra', 'main')
+    # `self` names the receiver, not an attribute a document can give: a key of that name is an unknown key like any other
+    # (C02 only: for C01 a rejected document is as good as a loaded one, and `self` in the arguments can only end in a rejection)
+    not_attrs = ('_yatiml_extra', 'self') if ctx.prop == 'C02' else ('_yatiml_extra',)
+    check_part(res, 'the mapping passed on to __init__', lambda k, ink: ink and k not in not_attrs, 'main')
     extra_consts = {k: v for k, v in res.consts.items()}
     r.check(set(extra_consts) == {'_yatiml_extra'}, 'the only added entry is "_yatiml_extra"', f.key('added-entries'), f.loc(),
             'entries added to the arguments under literal keys: %s (wanted exactly "_yatiml_extra")' % sorted(map(str, extra_consts)))
@@ -967,7 +1065,7 @@ def r01_13_extras_partition(ctx, rid='R01.13'):
                 '(move_to_end / popitem(last=..) / order-sensitive equality stop working)' % ex.kind)
         r.check(not ex.consts, 'the extras hold document entries only', f.key('extras-added'), f.loc(),
                 'entries added to the extras under literal keys %s' % sorted(map(str, ex.consts)))
-        check_part(ex, 'the extras', lambda k, ink: not (ink and k != '_yatiml_extra'), 'extras')
+        check_part(ex, 'the extras', lambda k, ink: not (ink and k not in not_attrs), 'extras')
     elif ex is not None:
         r.fail(f.key('extras-type'), f.loc(), 'the value stored under "_yatiml_extra" is not a mapping built in this function (%s)' % str(ex)[:60])
     r.done()
